@@ -133,3 +133,11 @@ Definition py_mm (c : pcase) : bool :=
        negb (String.eqb (po_call o) "raise" && Z.eqb (po_raised_at o) (Z.of_nat k - 1))
    | _ => true
    end)%bool.
+
+(* diagnosis: why a case is outside the model *)
+Definition why {A} (o : outcome A) : string :=
+  match o with GUnmodelled w => w | GOk _ => "" | GErr => "<err>" | GPanic => "<panic>" end.
+Definition go_case_why (c : bcase) : string :=
+  let '(e, pn, ctor, calls, o) := c in
+  if negb (ctx_supported (be_ctx e)) then "context outside the GoSem fragment" else why (go_case_trace c).
+Definition py_case_why (c : pcase) : string := why (py_case_trace c).
